@@ -853,6 +853,10 @@ func main() {
 				runCtxDone(w, 1)
 				continue
 			}
+			if l[0] == "svc.authmodes" {
+				replayAuthModes(l[2])
+				continue
+			}
 			if h, ok := histOfArgs(l[2]); ok {
 				h.auth = strings.HasSuffix(l[0], "auth")
 				h.late = strings.Contains(l[0], ".late")
@@ -875,6 +879,14 @@ func main() {
 		return
 	}
 
+	// the service wiring: runs beside the workers (it builds the service once)
+	var wgSvc sync.WaitGroup
+	wgSvc.Add(1)
+	go func() {
+		defer wgSvc.Done()
+		runAuthModes(3)
+	}()
+	defer wgSvc.Wait()
 	nworkers := 8
 	total := 1600
 	if a.Tier == "thorough" {
